@@ -10,8 +10,8 @@ import os, sys, json, time, re, hashlib
 
 VERIF = os.path.dirname(os.path.dirname(os.path.abspath(__file__)))
 KNOWN = os.path.join(VERIF, 'known_findings.txt')
-REPORTS = os.path.join(VERIF, 'reports')
-EVIDENCE = os.path.join(VERIF, 'evidence')
+REPORTS = os.environ.get('SLU_REPORTS_DIR') or os.path.join(VERIF, 'reports')
+EVIDENCE = os.environ.get('SLU_EVIDENCE_DIR') or os.path.join(VERIF, 'evidence')
 
 
 class AnalysisBroken(Exception):
